@@ -42,6 +42,7 @@ import Reamber.Lemmas.BMSRead
 import Reamber.Lemmas.BMSTempo
 import Reamber.Lemmas.BMSPair
 import Reamber.Lemmas.BMSWriteTempo
+import Reamber.Lemmas.BMSNum
 import Reamber.Props.C10
 import Reamber.Model.BMS
 import Reamber.Spec.BMS
@@ -402,6 +403,71 @@ theorem base36_ids_nodup (n : Nat) (hn : n < 1296) : ((List.range n).map (fun i 
   have := congrArg unb36 h
   rw [(base36_roundtrip (i + 1) hi').1, (base36_roundtrip (j + 1) hj').1] at this
   omega
+
+/-! ### the `#BPMxx` table, read back -/
+
+/-- the `(key, value)` pairs of the `#BPMxx` lines the writer emits, in row order -/
+def bpmEntries (rows : List BcOff) : List (Bytes × Bytes) :=
+  (zipIdxFrom 1 rows).map (fun p => ("BPM".toList ++ base36 p.1, showFixed Generated.BMS.exbpmDecimals p.2.bpm))
+
+theorem zipIdxFrom_fst {α} (l : List α) : ∀ k, (zipIdxFrom k l).map (·.1) = (List.range l.length).map (fun i => k + i) := by
+  induction l with
+  | nil => intro k; rfl
+  | cons a t ih =>
+    intro k
+    simp only [zipIdxFrom, List.map_cons, List.length_cons, List.range_succ_eq_map, ih (k + 1), List.map_map]
+    simp only [Nat.add_zero, List.cons.injEq, true_and]
+    apply List.map_congr_left
+    intro i _
+    simp only [Function.comp]
+    omega
+
+/-- **Header read-back of the tempo table** (`parseFloat ∘ showFixed 3`).  `_read_file_header`'s loop over the
+`#BPMxx` entries the writer produced — for ANY rows (fewer than 1295, non-negative tempos) — succeeds and builds
+the table `base36(i+1) ↦ roundDec 3 bpm_i` in row order; so every id looks up the three-decimal rounding of its own
+row's tempo, which is the tempo itself when it has at most three decimals (¬D06). -/
+theorem exbpm_table_readback (rows : List BcOff) (hn : rows.length < 1295) (hpos : ∀ b ∈ rows, 0 ≤ b.bpm) :
+    foldlE exbpmStep [] (bpmEntries rows) = .ok ((zipIdxFrom 1 rows).map (fun p => (base36 p.1, roundDec 3 p.2.bpm))) ∧
+    ∀ p ∈ zipIdxFrom 1 rows,
+      dictGet? ((zipIdxFrom 1 rows).map (fun p => (base36 p.1, roundDec 3 p.2.bpm))) (base36 p.1) = some (roundDec 3 p.2.bpm) := by
+  have hdec : Generated.BMS.exbpmDecimals = 3 := by decide
+  -- the ids are pairwise different
+  have hids : (((zipIdxFrom 1 rows).map (fun p => (base36 p.1, roundDec 3 p.2.bpm))).map (·.1)).Nodup := by
+    rw [List.map_map]
+    have : (zipIdxFrom 1 rows).map ((fun q : Bytes × Rat => q.1) ∘ fun p => (base36 p.1, roundDec 3 p.2.bpm)) =
+        ((zipIdxFrom 1 rows).map (·.1)).map base36 := by simp [List.map_map, Function.comp_def]
+    rw [this, zipIdxFrom_fst, List.map_map]
+    have h2 := base36_ids_nodup rows.length (by omega)
+    have : (List.range rows.length).map (base36 ∘ fun i => 1 + i) = (List.range rows.length).map (fun i => base36 (i + 1)) := by
+      apply List.map_congr_left; intro i _; simp [Function.comp, Nat.add_comm]
+    rw [this]; exact h2
+  obtain ⟨hfold, hlook⟩ := dict_of_distinct _ hids
+  constructor
+  · -- the loop is the dict fill
+    have key : ∀ (l : List (Nat × BcOff)) (d : Dict Rat), (∀ p ∈ l, 0 ≤ p.2.bpm) →
+        foldlE exbpmStep d (l.map (fun p => ("BPM".toList ++ base36 p.1, showFixed Generated.BMS.exbpmDecimals p.2.bpm))) =
+          .ok ((l.map (fun p => (base36 p.1, roundDec 3 p.2.bpm))).foldl (fun d kv => dictSet d kv.1 kv.2) d) := by
+      intro l
+      induction l with
+      | nil => intro d _; rfl
+      | cons a t ih =>
+        intro d hp
+        simp only [List.map_cons, foldlE_cons, List.foldl_cons]
+        have hkey : isExbpmKey ("BPM".toList ++ base36 a.1) = true := by
+          simp [isExbpmKey, base36, upper]
+        have hval : parseFloat (showFixed Generated.BMS.exbpmDecimals a.2.bpm) = some (roundDec 3 a.2.bpm) := by
+          rw [hdec]; exact parseFloat_showFixed 3 (by decide) _ (hp a (by simp))
+        have hdrop : ("BPM".toList ++ base36 a.1).drop 3 = base36 a.1 := by simp
+        simp only [exbpmStep, hkey, if_true, hval, hdrop]
+        exact ih _ (fun p hpm => hp p (by simp [hpm]))
+    have hp' : ∀ p ∈ zipIdxFrom 1 rows, 0 ≤ p.2.bpm := by
+      intro p hp
+      exact hpos p.2 (zipIdxFrom_mem rows 1 p hp).2.2
+    have := key (zipIdxFrom 1 rows) [] hp'
+    rw [hfold] at this
+    exact this
+  · intro p hp
+    exact hlook (base36 p.1, roundDec 3 p.2.bpm) (List.mem_map_of_mem (f := fun p : Nat × BcOff => (base36 p.1, roundDec 3 p.2.bpm)) hp)
 
 /-! ### the slot fill -/
 
